@@ -12,6 +12,72 @@ def nontrivial_read(rq, resp):
     return ' # EV - ' not in resp or not resp.startswith('char:0')
 
 PROPS = {
+    'C01': {
+        'lean': ['Purr.Props.C01'],
+        'suites': [
+            {'name': 'graph', 'fields': ['V', 'EV', 'W'], 'nontrivial': lambda rq, resp: resp.startswith('ok') and ' # EV - ' not in resp},
+            {'name': 'read', 'fields': ['V', 'EV', 'W', 'B'], 'nontrivial': nontrivial_read},
+            {'name': 'kinds'},
+        ],
+        'rule': 'graph: all symmetric simple graphs <= 4 atoms x bond kinds x every bond-list order, random well-formed graphs up to 300 atoms '
+                '(trees, fused / spiro / bridged rings, several components, all atom kinds incl. six-field bracket atoms, all eight bond kinds), '
+                'ring-rich graphs; read: accepted strings whose graph builds; kinds: the text of every atom-kind family. The oracle re-reads what '
+                'was written and tests isomorphism. non-trivial = accepted, at least one atom',
+        'assumptions': ASSUME_COMMON,
+    },
+    'C02': {
+        'lean': ['Purr.Props.C02'],
+        'suites': [
+            {'name': 'read', 'fields': ['V', 'EV', 'B'], 'nontrivial': nontrivial_read},
+            {'name': 'atom', 'fields': ['V', 'EV', 'B'], 'nontrivial': nontrivial_read},
+        ],
+        'rule': 'read: bounded-exhaustive strings over SMILES sub-alphabets and grammar-directed random strings with nested branches, dots in '
+                'branches, re-used ring numbers, several digits per atom, explicit / elided / directional kinds on either end of a closure; atom: every '
+                'token family. Events and the built graph (or build error) are compared. non-trivial = not refused at position 0',
+        'assumptions': ASSUME_COMMON,
+    },
+    'C03': {
+        'lean': ['Purr.Props.C03'],
+        'suites': [
+            {'name': 'graph', 'fields': ['V', 'EV', 'W'], 'nontrivial': lambda rq, resp: ',55,' in rq or ',56,' in rq or ':6' in rq or ':7' in rq or '6:' in rq or '7:' in rq},
+            {'name': 'read', 'fields': ['V', 'EV', 'B'], 'nontrivial': lambda rq, resp: ',55,' in resp or ',56,' in resp},
+        ],
+        'rule': 'graph: a stereo family (centre as root / chain atom / ring-closing atom x arrival index 0-3 x with / without virtual hydrogen x both '
+                'marks x TH and other configurations), directional bonds on tree and ring-closure edges in both directions, random graphs with a '
+                'stereo-biased kind generator; read: strings with @ / @@ atoms. non-trivial = a tetrahedral mark or a directional bond is present',
+        'assumptions': ASSUME_COMMON,
+    },
+    'C12': {
+        'lean': ['Purr.Props.C12'],
+        'suites': [
+            {'name': 'graph', 'fields': ['V', 'EV', 'W'], 'nontrivial': lambda rq, resp: resp.startswith('ok') and ' # EV - ' not in resp},
+            {'name': 'read', 'fields': ['V', 'B'], 'nontrivial': nontrivial_read},
+        ],
+        'rule': 'graph: all small graphs x every order of every bond list (every position of the arrival bond, every mixture of ring-closure and '
+                'tree bonds at one atom up to degree 3; random graphs up to degree 8 and 300 atoms); read: accepted strings. non-trivial = accepted',
+        'assumptions': ASSUME_COMMON,
+    },
+    'C14': {
+        'lean': ['Purr.Props.C14'],
+        'suites': [
+            {'name': 'graph', 'fields': ['V', 'W'], 'nontrivial': lambda rq, resp: resp.startswith('ok') and ' # EV - ' not in resp},
+            {'name': 'read', 'fields': ['V', 'W'], 'nontrivial': nontrivial_read},
+        ],
+        'rule': 'the S-graph and S-read sets; every well-formed input is additionally written in three fresh threads (fresh HashMap seeds) and '
+                'rewritten twice by the oracle. non-trivial = accepted',
+        'assumptions': ASSUME_COMMON + ['hash-seed independence is a runtime fact: measured by repeated runs in fresh threads, not proved'],
+    },
+    'C15': {
+        'lean': ['Purr.Props.C15'],
+        'suites': [
+            {'name': 'read', 'fields': ['V', 'T'], 'nontrivial': nontrivial_read},
+            {'name': 'atom', 'fields': ['V', 'T'], 'nontrivial': nontrivial_read},
+        ],
+        'rule': 'every S-read and S-atom string is read with a Trace; the complete dump (every atom range up to two ids past the end, every key '
+                'of the bond table in both directions, every ring-closure range) is compared with the model, accepted or not. non-trivial = at '
+                'least one atom read',
+        'assumptions': ASSUME_COMMON,
+    },
     'C04': {
         'lean': ['Purr.Props.C04'],
         'suites': [
@@ -57,6 +123,7 @@ PROPS = {
             {'name': 'val', 'requests': r'VAL '},
             {'name': 'depth'},
         ],
+        'soak': {'quick': [('nested', 100000), ('chain', 100000)], 'thorough': [('nested', 100000), ('chain', 1000000), ('dots', 1000000), ('branches', 500000)]},
         'rule': 'every suite of the harness with every response field compared (a panic of the real code where the model has none is a '
                 'disagreement): bounded-exhaustive and random strings incl. multi-byte and control characters, all small adjacency lists '
                 'incl. garbage (dangling, self, duplicate, asymmetric bonds), random well-formed and mutated graphs up to 300 atoms, ring-rich '
